@@ -314,6 +314,15 @@ class Evolver:
                 f["default"] = d
             rec["fields"].insert(rng.randrange(len(rec["fields"]) + 1), f)
             return "%s@%d:%s" % (name, st.depth, kind(t))
+        if name == "remove_container_field":
+            # drop a field whose type contains an array or a map (so that the skip functions run on it), at any depth
+            cands = [(s, i) for s in sites(top) if is_rec(s) for i, f in enumerate(s.get()["fields"]) if has_container(f["type"])]
+            if not cands:
+                return None
+            st, i = rng.choice(cands)
+            self.last_site = st
+            f = st.get()["fields"].pop(i)
+            return "remove_container_field@%d:%s%s" % (st.depth, kind(f["type"]), ":ahead" if i < len(st.get()["fields"]) else ":last")
         if name == "remove_field":
             st = self.pick(top, lambda s: is_rec(s) and len(s.get()["fields"]) >= 1)
             if not st:
@@ -545,7 +554,7 @@ class Evolver:
             del field["default"]
 
     # ------------------------------------------------------------ driver
-    def evolve(self, raw, nsteps=None, only=None):
+    def evolve(self, raw, nsteps=None, only=None, first=None):
         """returns (reader raw schema, [step descriptions]) ; raises Invalid when nothing valid came out"""
         import fastavro
         rng = self.rng
@@ -554,7 +563,7 @@ class Evolver:
         applied = []
         n = nsteps if nsteps is not None else rng.choice([1, 1, 1, 2, 2, 3, 4, 6])
         for _slot in range(n):
-            order = [only] if only else sorted(self.STEPS, key=lambda s: rng.random() ** (1.0 / self.WEIGHT.get(s, 1.0)), reverse=True)
+            order = [first] if (first and _slot == 0) else [only] if only else sorted(self.STEPS, key=lambda s: rng.random() ** (1.0 / self.WEIGHT.get(s, 1.0)), reverse=True)
             for name in order:
                 backup = copy.deepcopy(top[0])
                 for k, v in collect_defs(top[0], {}).items():
@@ -580,6 +589,18 @@ class Evolver:
         out = json.loads(json.dumps(finalize(top[0], rng)))
         fastavro.parse_schema(copy.deepcopy(out), {})
         return out, applied
+
+
+def has_container(s):
+    if isinstance(s, list):
+        return any(has_container(b) for b in s)
+    if isinstance(s, dict):
+        t = s["type"]
+        if t in ("array", "map"):
+            return True
+        if t in ("record", "error"):
+            return any(has_container(f["type"]) for f in s["fields"])
+    return False
 
 
 def refs_in(s):
